@@ -101,6 +101,13 @@ class File:
         except (UnicodeError, LookupError):
             pass
 
+        if (mode != FileMode.Overwrite and os.path.isfile(path)
+                and os.path.getsize(path) == 0):
+            # libhdf5 turns an empty file that is opened with write access
+            # into an HDF5 file: refuse it before it is touched
+            map_file_mode(mode)  # an invalid mode is reported first
+            raise InvalidFile
+
         if not os.path.exists(path) and mode == FileMode.ReadOnly:
             raise RuntimeError(
                 "Cannot open non-existent file in ReadOnly mode!"
